@@ -72,6 +72,7 @@ def run(cfg, chooser, seed=0):
         exts = ([b'limits@openssh.com', b'ranges@asyncssh.com'] if cfg.get('ranges', True)
                 else [b'limits@openssh.com'])
         srv = RS.RefSFTP(loop, extensions=exts)
+        srv.empty_reads = bool(cfg.get('empty_reads'))
         if cfg.get('ranges_cap'):
             srv.ranges_cap = cfg['ranges_cap']
         src = sparse_content(size, extents) if extents is not None else content(size)
@@ -268,6 +269,14 @@ def jobs(tier):
         for op in ('get', 'copy'):
             js.append((dict(op=op, size=10, b=4, r=2, sparse=sparse, stat_size=14), bound))
             js.append((dict(op=op, size=8, b=4, r=2, sparse=sparse, stat_size=9), bound))
+    # a server that may answer a READ inside the file with a DATA packet carrying nothing (neither data nor EOF)
+    for size in (9, 13, 17):
+        for op in ('get', 'copy', 'fread'):
+            for sparse in ((True, False) if op != 'fread' else (True,)):
+                c = dict(op=op, size=size, b=4, r=2, sparse=sparse, empty_reads=True)
+                if op == 'fread':
+                    c['range'] = (0, -1)
+                js.append((c, bound))
     # file object reads / writes
     for b in (4, 8):
         for r in (1, 2, 3):
